@@ -247,7 +247,7 @@ def gen_guard(rng):
         # a guard of type number (count-down style): non-zero is true
         p = rng.choice(EXPR_NUM_PATHS)
         return p if rng.random() < 0.7 else {"binOp": "*", "left": p, "right": rng.choice([1, 2, 0.5, -1])}
-    if rng.random() < 0.04:
+    if rng.random() < 0.1:
         return False  # a switched-off loop: `Loop While false`
     base = rng.choice(BOOL_PATHS)
     r = rng.random()
